@@ -20,12 +20,12 @@ import (
 // faultReader is the simulated stdin: short reads, early EOF, errors.
 type faultReader struct {
 	errReturned bool
-	data   []byte
-	pos    int
-	chunk  int
-	failAt int
-	eofAt  int
-	k      *Kernel
+	data        []byte
+	pos         int
+	chunk       int
+	failAt      int
+	eofAt       int
+	k           *Kernel
 }
 
 func (r *faultReader) Read(p []byte) (int, error) {
